@@ -3,11 +3,15 @@
 package props
 
 import (
+	"bytes"
 	"encoding/json"
 	"fmt"
+	"mime/multipart"
 	"sort"
 	"strings"
+	"sync"
 	"testing"
+	"time"
 	"unicode/utf8"
 
 	"verif/harness/backends"
@@ -221,6 +225,93 @@ func c17Deleted(e *c17Env, spec string) (ds []disc) {
 	return append(ds, e.checkList()...)
 }
 
+// c17InFlight: while the body of an upload into a created bucket is still arriving, the bucket
+// listing is what it was (whatever a backend stages for the upload is not a bucket). via = put |
+// part | post. reached reports whether the listing could be taken while the upload was held.
+func c17InFlight(e *c17Env, via string) (ds []disc, reached bool) {
+	k := e.st.Kind
+	name := "uploads-in-flight"
+	if !e.created[name] {
+		cd, _, acc := e.create(name)
+		if !acc {
+			return append(cd, dsc("harness", "backend=%s: cannot create %s", k, name)...), false
+		}
+	}
+	body := prog.Pattern(50000, 17)
+	rq := &s3x.Req{Method: "PUT", Path: "/" + name + "/dir/in-flight-" + via, Body: body}
+	switch via {
+	case "part":
+		x := s3x.Do(e.st.Handler, &s3x.Req{Method: "POST", Path: "/" + name + "/dir/in-flight-part", Query: s3x.Q("uploads", s3x.Bare)})
+		var d s3x.InitiateDoc
+		if x.Status != 200 || x.XML(&d) != nil {
+			return dsc("harness", "backend=%s: initiate answered %s", k, x), false
+		}
+		rq.Query = s3x.Q("partNumber", "1", "uploadId", d.UploadId)
+	case "post":
+		var buf bytes.Buffer
+		mw := multipart.NewWriter(&buf)
+		mw.WriteField("key", "dir/in-flight-post")
+		fw, _ := mw.CreateFormFile("file", "upload.bin")
+		fw.Write(body)
+		mw.Close()
+		rq = &s3x.Req{Method: "POST", Path: "/" + name, Header: s3x.H("Content-Type", mw.FormDataContentType()), Body: buf.Bytes()}
+	}
+	at, release := make(chan struct{}), make(chan struct{})
+	var once sync.Once
+	rq.Frag = s3x.Frag{Mode: "n", N: 4096}
+	rq.Gate = func(off int) {
+		if off >= 25000 {
+			once.Do(func() { close(at); <-release })
+		}
+	}
+	done := make(chan *s3x.Resp, 1)
+	go func() { done <- s3x.DoWith(e.st.Handler, rq, s3x.DoOpts{Timeout: 30 * time.Second}) }()
+	var up *s3x.Resp
+	select {
+	case <-at:
+		reached = true
+	case up = <-done:
+	case <-time.After(20 * time.Second):
+	}
+	if reached {
+		seen := make(chan []disc, 1)
+		go func() {
+			d := e.checkList()
+			names, _ := e.listed()
+			for _, n := range names {
+				if !e.created[n] {
+					if h := s3x.Do(e.st.Handler, &s3x.Req{Method: "HEAD", Path: "/" + n}); h.Status == 200 {
+						d = append(d, dsc("phantom-bucket-answers", "backend=%s: HEAD /%s answers 200 although nobody created that bucket", k, n)...)
+					}
+				}
+			}
+			seen <- d
+		}()
+		select {
+		case d := <-seen:
+			for i := range d {
+				d[i].Detail = fmt.Sprintf("while the body of an upload (%s) into %s is arriving: ", via, name) + d[i].Detail
+			}
+			ds = append(ds, d...)
+		case <-time.After(2 * time.Second):
+			reached = false // the listing waits for the upload: nothing to see in between
+			defer func() { <-seen }()
+		}
+	}
+	close(release)
+	if up == nil {
+		select {
+		case up = <-done:
+		case <-time.After(40 * time.Second):
+			return append(ds, dsc("inconclusive:upload-stuck", "backend=%s: the held upload (%s) did not finish", k, via)...), reached
+		}
+	}
+	if up.Panic != "" {
+		ds = append(ds, dsc("panic", "backend=%s: upload (%s): %s at %s", k, via, up.Panic, up.PanicSite)...)
+	}
+	return append(ds, e.checkList()...), reached
+}
+
 var c17DeletedSpecs = []string{"plain:none", "plain:head", "plain:object", "plain:object-left", "force:none", "force:head", "force:object", "force:object-left"}
 
 func c17Replay(check string, raw json.RawMessage) ([]disc, error) {
@@ -230,6 +321,10 @@ func c17Replay(check string, raw json.RawMessage) ([]disc, error) {
 	}
 	e := newC17Env(cs.Backend)
 	defer e.st.Close()
+	if strings.HasPrefix(cs.Name, "in-flight ") {
+		ds, _ := c17InFlight(e, strings.TrimPrefix(cs.Name, "in-flight "))
+		return ds, nil
+	}
 	if strings.HasPrefix(cs.Name, "deleted-bucket ") {
 		return c17Deleted(e, strings.TrimPrefix(cs.Name, "deleted-bucket ")), nil
 	}
@@ -253,7 +348,8 @@ func TestC17(t *testing.T) {
 		Level: "exploration",
 		Rule: "cases = (backend in {mem, bolt, fs-multi}, bucket name) created through HTTP PUT /<name>; exhaustive: all strings over {a,z,0,9,-,.,A,_} up to length L (L=5 quick: 37448 names, L=6 thorough: 299592 names), " +
 			"all lengths 1..70 of valid characters, dotted multi-label names with label lengths 1-4, IPv4/IPv6-looking names; rapid: random strings incl. UTF-8 and URL-reserved characters; " +
-			"oracle written from the statement (not the regexp); ListBuckets must equal the set of names created (checked every 64 names and at the end); non-trivial = the name is within one edit (over the alphabet) of the valid/invalid boundary; distinct by (backend, name)",
+			"oracle written from the statement (not the regexp); ListBuckets must equal the set of names created (checked every 64 names and at the end, after requests other than create-bucket that spell a bucket in odd ways, after objects of 0 B to 1 MiB / a multipart upload / a copy were stored, " +
+			"while the body of a put / part / form upload is still arriving, and after a bucket was deleted again (plainly or forced, used or not): it is not listed, requests to it do not bring it back, its name can be created again); non-trivial = the name is within one edit (over the alphabet) of the valid/invalid boundary; distinct by (backend, name)",
 		Replay: c17Replay,
 		Run:    c17Run,
 	})
@@ -427,6 +523,27 @@ func c17Run(t *testing.T, c *evid.Collector) {
 		}
 		s3x.Do(e.st.Handler, &s3x.Req{Method: "PUT", Path: "/objects-go-here/copied", Header: s3x.H("X-Amz-Copy-Source", "/objects-go-here/dir/object-300000")})
 		report(c, "listbuckets", e.checkList(), c17Case{k, "(after multipart and copy)"})
+	}
+	// the listing while an upload is in flight
+	for _, k := range kinds {
+		for _, via := range []string{"put", "part", "post"} {
+			cs := c17Case{k, "in-flight " + via}
+			ds, reached := c17InFlight(envs[k], via)
+			labels := []string{"backend:" + string(k), "src:in-flight-upload"}
+			if reached {
+				labels = append(labels, "listed-while-upload-held")
+			}
+			c.Case(evid.FP(string(k), "in-flight", via), reached, func() interface{} { return cs }, labels...)
+			var real []disc
+			for _, d := range ds {
+				if strings.HasPrefix(d.Kind, "inconclusive:") {
+					c.Inconclusive(d.Detail)
+					continue
+				}
+				real = append(real, d)
+			}
+			report(c, "listbuckets", real, cs)
+		}
 	}
 	// buckets that were deleted again
 	for _, k := range kinds {
